@@ -541,6 +541,44 @@ func batch(r *vh.Run, i int) {
 			}
 		}
 		_ = rsrv.Close()
+		// (6) life goes on after the recovery: a push into each repository of the recovered directory, a clean stop,
+		// another start - whatever the crash left half-made (a repository in the making is tolerated above) must have
+		// been completed by then: the push is served and the directory is a valid layout
+		if k%4 == 1 {
+			s6 := vh.New(vh.Conf(vh.Dir, im.dir, vh.Neutral))
+			nb := &vh.Blob{Name: "after", B: []byte(fmt.Sprintf(`{"after":"recovery","b":%d,"k":%d}`, i, k))}
+			nb.D = vh.DigestOf("sha256", nb.B)
+			nm := vh.MkImage("after", "sha256", vh.MTImage, nb, vh.MTConfig, nil, "", "", map[string]string{"k": fmt.Sprint(i, ".", k)})
+			acked := map[string]bool{}
+			for _, rp := range repos {
+				b1 := vh.Do(s6, vh.Req{Method: "POST", URL: "/v2/" + rp + "/blobs/uploads/?digest=" + nb.D, Body: nb.B})
+				m1 := vh.Do(s6, vh.Req{Method: "PUT", URL: "/v2/" + rp + "/manifests/after-recovery", H: map[string]string{"Content-Type": nm.MT}, Body: nm.Raw})
+				acked[rp] = b1.Status == 201 && m1.Status == 201
+				if b1.Status >= 500 || m1.Status >= 500 {
+					viol("recovery:push-5xx", fmt.Sprintf("%s: a push into the recovered directory answers %d / %d", rp, b1.Status, m1.Status))
+				}
+			}
+			_ = s6.Close()
+			s7 := vh.New(vh.Conf(vh.Dir, im.dir, vh.Neutral))
+			for _, rp := range repos {
+				if !acked[rp] {
+					continue
+				}
+				r.Count("pushes_after_recovery_verified", 1)
+				g := vh.Do(s7, vh.Req{Method: "GET", URL: "/v2/" + rp + "/manifests/after-recovery", H: map[string]string{"Accept": vh.AcceptAll}})
+				gb := vh.Do(s7, vh.Req{Method: "GET", URL: "/v2/" + rp + "/blobs/" + nb.D})
+				if g.Status != 200 || string(g.Body) != string(nm.Raw) || gb.Status != 200 {
+					viol("recovery:later-push-lost", fmt.Sprintf("%s: an image pushed (201) into the recovered directory is not served after a clean restart: manifest %d, blob %d", rp, g.Status, gb.Status))
+				}
+				for _, p := range vh.ValidateLayout(filepath.Join(im.dir, rp)) {
+					if strings.Contains(p, "temporary index file") || has(quietProb[im.op-1][rp], p) || has(quietProb[im.op][rp], p) {
+						continue
+					}
+					viol("recovery:layout-after-later-push", fmt.Sprintf("%s: after a push into the recovered directory and a clean restart the directory is not a valid layout: %s", rp, p))
+				}
+			}
+			_ = s7.Close()
+		}
 		_ = os.RemoveAll(im.dir)
 		r.Count("images_checked", 1)
 		if i == 0 && k < 4 {
